@@ -12,6 +12,15 @@ package main
 //	E c    CbEnd     Now() returns the sampled time; the callback runs deleteTemplateWithConds
 //	                 to completion
 //	T d i tag / B d i / D d i   template, malformed template (invalidation), data set for key (d,i)
+//	X c d i tag      CbEnd of callback c with a template refresh for key (d,i) processed while the
+//	                 callback is between two of its critical sections: every Lock/RLock of the
+//	                 collector mutex is a scheduling point (overlay/ov_collector.py); the refresh
+//	                 runs in the gap before the callback's SECOND lock acquisition after the clock
+//	                 read. A callback that takes one critical section (the code as the model has
+//	                 it: ACbEnd is atomic) has no gap, and X is then T followed by E - which is
+//	                 also what X means in the model (ATemplate; ACbEnd), so that a refresh
+//	                 processed inside a split check-then-delete is judged against "the refresh
+//	                 came first". Two observation groups: after the refresh, after the callback.
 //
 // Disabled actions are no-ops. After every action: a probe data set per key of the universe,
 // the template table (VerifTemplates), the armed timers and the callbacks in flight.
@@ -23,6 +32,7 @@ import (
 	"strconv"
 	"strings"
 	"sync"
+	"sync/atomic"
 	"time"
 
 	"github.com/vmware/go-ipfix/pkg/collector"
@@ -58,6 +68,8 @@ type c10Cb struct {
 	state    int // 0 started, clock not read; 1 clock read; 2 finished
 	sampled  int64
 	nowCalls int
+	sections int    // lock acquisitions of the collector mutex after the clock read
+	inject   func() // X: runs once, before the second of them
 	parked   chan struct{}
 	release  chan struct{}
 	done     chan struct{}
@@ -71,6 +83,44 @@ type c10Clock struct {
 	timers []*c10Timer
 	cbs    []*c10Cb
 	gids   map[uint64]*c10Cb
+}
+
+// c10HookClock is the clock of the simulation in progress (simulations run one at a time).
+var c10HookClock atomic.Pointer[c10Clock]
+var c10MaxSections int64
+
+// c10LockHook is collector.VerifLockHook during C10 runs: it counts the critical sections a
+// callback takes after reading the clock and runs the armed injection in the first gap. While
+// the injection runs the goroutine is not treated as the callback (its clock reads tick like
+// any other addTemplate, its lock operations are not counted).
+func c10LockHook(write bool) {
+	c := c10HookClock.Load()
+	if c == nil {
+		return
+	}
+	gid := curGID()
+	c.mu.Lock()
+	cb := c.gids[gid]
+	if cb == nil || cb.state != 1 {
+		c.mu.Unlock()
+		return
+	}
+	cb.sections++
+	if int64(cb.sections) > atomic.LoadInt64(&c10MaxSections) {
+		atomic.StoreInt64(&c10MaxSections, int64(cb.sections))
+	}
+	inj := cb.inject
+	if cb.sections < 2 || inj == nil {
+		c.mu.Unlock()
+		return
+	}
+	cb.inject = nil
+	delete(c.gids, gid)
+	c.mu.Unlock()
+	inj()
+	c.mu.Lock()
+	c.gids[gid] = cb
+	c.mu.Unlock()
 }
 
 func curGID() uint64 {
@@ -215,6 +265,25 @@ func (c *c10Clock) CbEnd(id int) string {
 	return ""
 }
 
+// CbEndInject is CbEnd with inj armed for the first gap between two critical sections of the
+// callback. Returns the CbEnd result and whether inj ran.
+func (c *c10Clock) CbEndInject(id int, inj func()) (string, bool) {
+	c.mu.Lock()
+	if id < 0 || id >= len(c.cbs) || c.cbs[id].state != 1 {
+		c.mu.Unlock()
+		return "", false
+	}
+	cb := c.cbs[id]
+	cb.inject = inj
+	c.mu.Unlock()
+	r := c.CbEnd(id)
+	c.mu.Lock()
+	ran := cb.inject == nil
+	cb.inject = nil
+	c.mu.Unlock()
+	return r, ran
+}
+
 // drain lets every parked callback finish (end of a case).
 func (c *c10Clock) drain() {
 	c.mu.Lock()
@@ -299,6 +368,8 @@ func (a c10Act) String() string {
 		return fmt.Sprintf("T %d %d %d", a.k.d, a.k.i, a.tag)
 	case "B", "D":
 		return fmt.Sprintf("%s %d %d", a.op, a.k.d, a.k.i)
+	case "X":
+		return fmt.Sprintf("X %d %d %d %d", a.n, a.k.d, a.k.i, a.tag)
 	}
 	return fmt.Sprintf("%s %d", a.op, a.n)
 }
@@ -318,6 +389,7 @@ func newC10Sim(ttlSecs uint32, tick int64) *c10Sim {
 	if err != nil {
 		panic(err)
 	}
+	c10HookClock.Store(clk)
 	return &c10Sim{clk: clk, cp: cp}
 }
 
@@ -338,6 +410,51 @@ func c10Guarded(f func() string) string {
 	case <-time.After(c10Watchdog):
 		return "hang"
 	}
+}
+
+// Step performs one planned action and returns the actions that make up what actually happened
+// and their observation groups. Every action but X is itself. X c k tag arms the refresh for the
+// first gap between two critical sections of callback c and lets the callback finish: when the
+// refresh ran in such a gap the history is [X c k tag] (two groups: in the gap, after the
+// callback); when the callback took a single critical section (or was not enabled) it has
+// completed before the refresh could be placed, and the history is [E c; T k tag].
+func (s *c10Sim) Step(a c10Act) ([]c10Act, string) {
+	if a.op != "X" || s.dead {
+		return []c10Act{a}, s.Do(a)
+	}
+	mid := ""
+	ran := false
+	r := c10Guarded(func() string {
+		var res string
+		res, ran = s.clk.CbEndInject(int(a.n), func() {
+			s.cp.VerifDecodePacket(c10TemplateMsg(a.k, a.tag), "127.0.0.1:1")
+			mid = s.observe()
+		})
+		return res
+	})
+	if r != "" {
+		s.dead = true
+		if r == "hang" {
+			c10Hangs++
+		}
+		return []c10Act{a}, r
+	}
+	o := c10Guarded(func() string { return "=" + s.observe() })
+	if !strings.HasPrefix(o, "=") {
+		s.dead = true
+		if o == "hang" {
+			c10Hangs++
+		}
+		if ran {
+			return []c10Act{a}, mid + " " + o
+		}
+		return []c10Act{{op: "E", n: a.n}}, o
+	}
+	if ran {
+		return []c10Act{a}, mid + " " + o[1:]
+	}
+	t := c10Act{op: "T", k: a.k, tag: a.tag}
+	return []c10Act{{op: "E", n: a.n}, t}, o[1:] + " " + s.Do(t)
 }
 
 // Do performs one action and returns the observation group ("/ ...").
@@ -426,18 +543,20 @@ func (s *c10Sim) observe() string {
 func (s *c10Sim) Close() { s.clk.drain() }
 
 // c10RunCase runs a whole case and returns the observation.
-func c10RunCase(ttlSecs uint32, tick int64, acts []c10Act) string {
+func c10RunCase(ttlSecs uint32, tick int64, acts []c10Act) ([]c10Act, string) {
 	s := newC10Sim(ttlSecs, tick)
 	defer s.Close()
 	out := make([]string, 0, len(acts))
+	did := make([]c10Act, 0, len(acts))
 	for _, a := range acts {
-		o := s.Do(a)
+		d, o := s.Step(a)
+		did = append(did, d...)
 		out = append(out, o)
 		if s.dead {
 			break
 		}
 	}
-	return strings.Join(out, " ")
+	return did, strings.Join(out, " ")
 }
 
 func c10CaseLine(ttlSecs uint32, tick int64, acts []c10Act) string {
@@ -471,6 +590,9 @@ func c10ParseCase(t []string) (uint32, int64, []c10Act) {
 		case "B", "D":
 			acts = append(acts, c10Act{op: t[0], k: c10Key{uint32(atou(t[1])), uint16(atou(t[2]))}})
 			t = t[3:]
+		case "X":
+			acts = append(acts, c10Act{op: "X", n: atoz(t[1]), k: c10Key{uint32(atou(t[2])), uint16(atou(t[3]))}, tag: atou(t[4])})
+			t = t[5:]
 		default:
 			acts = append(acts, c10Act{op: t[0], n: atoz(t[1])})
 			t = t[2:]
@@ -490,7 +612,7 @@ func c10TTLns(ttlSecs uint32) int64 {
 }
 
 // random case, generated while it runs so that most scheduling actions are enabled ones
-func c10Random(env *Env, ttlSecs uint32, tick int64, depth int, nkeys int) (string, string) {
+func c10Random(env *Env, ttlSecs uint32, tick int64, depth int, nkeys int, split bool) (string, string) {
 	r := env.Rng
 	s := newC10Sim(ttlSecs, tick)
 	defer s.Close()
@@ -582,7 +704,10 @@ func c10Random(env *Env, ttlSecs uint32, tick int64, depth int, nkeys int) (stri
 				a = c10Act{op: "S", n: int64(r.Intn(ncb + 1))}
 			}
 		default:
-			if len(begun) > 0 && r.Intn(10) > 0 {
+			if split && len(begun) > 0 && r.Intn(3) > 0 {
+				// a refresh processed while the callback is between its critical sections
+				a = c10Act{op: "X", n: int64(begun[r.Intn(len(begun))]), k: k, tag: uint64(r.Intn(2))}
+			} else if len(begun) > 0 && r.Intn(10) > 0 {
 				a = c10Act{op: "E", n: int64(begun[r.Intn(len(begun))])}
 				if len(begun)+len(fresh) > 1 {
 					staleEnd = true
@@ -591,8 +716,16 @@ func c10Random(env *Env, ttlSecs uint32, tick int64, depth int, nkeys int) (stri
 				a = c10Act{op: "E", n: int64(r.Intn(ncb + 1))}
 			}
 		}
-		acts = append(acts, a)
-		obs = append(obs, s.Do(a))
+		did, o := s.Step(a)
+		if a.op == "X" {
+			if did[0].op == "X" {
+				env.Count("split/refresh-placed-between-two-critical-sections-of-a-callback")
+			} else {
+				env.Count("split/callback-was-one-critical-section:ran-as-E-then-T")
+			}
+		}
+		acts = append(acts, did...)
+		obs = append(obs, o)
 	}
 	if refreshWhilePending {
 		env.Count("random/template-while-callback-in-flight")
@@ -665,8 +798,52 @@ func c10Enumerate(env *Env, ttlSecs uint32, tick int64, keys []c10Key, tags2, ha
 	rec(nil)
 }
 
+// c10Split: refreshes placed inside the expiry callback (action X), after every other generator so
+// that their random streams are what they were. Directed schedules first (the deadline reached,
+// the callback past its clock read, the periodic refresh of the same template arriving before the
+// callback is done - with one and two keys, a standing and a moving clock, a callback made stale
+// by an earlier refresh), then random walks in which two thirds of the callback completions are X.
+func c10Split(env *Env, ttls []uint32) {
+	k0, k1 := c10Universe[0], c10Universe[1]
+	for _, ttlSecs := range []uint32{1, 3, 0} {
+		ttl := c10TTLns(ttlSecs)
+		for _, tick := range []int64{0, 1, 7} {
+			T := func(k c10Key, g uint64) c10Act { return c10Act{op: "T", k: k, tag: g} }
+			A := func(n int64) c10Act { return c10Act{op: "A", n: n} }
+			N := func(op string, n int64) c10Act { return c10Act{op: op, n: n} }
+			X := func(c int64, k c10Key, g uint64) c10Act { return c10Act{op: "X", n: c, k: k, tag: g} }
+			D := func(k c10Key) c10Act { return c10Act{op: "D", k: k} }
+			for _, acts := range [][]c10Act{
+				{T(k0, 0), A(ttl + 2*tick), N("F", 0), N("S", 0), X(0, k0, 0), D(k0)},
+				{T(k0, 0), A(ttl + 2*tick), N("F", 0), N("S", 0), X(0, k0, 1), D(k0), A(ttl - 1), D(k0)},
+				{T(k0, 0), A(ttl + 2*tick + 5), N("F", 0), A(3), N("S", 0), A(4), X(0, k0, 0), D(k0)},
+				{T(k0, 0), T(k1, 1), A(ttl + 4*tick), N("F", 1), N("F", 0), N("S", 0), N("S", 1), X(1, k1, 1), X(0, k0, 0), D(k0), D(k1)},
+				{T(k0, 0), T(k1, 0), A(ttl + 4*tick), N("F", 0), N("S", 0), X(0, k1, 0), D(k0), D(k1)},
+				{T(k0, 0), A(ttl + 2*tick), N("F", 0), T(k0, 0), N("S", 0), X(0, k0, 0), D(k0), A(ttl + 2*tick), N("F", 0), N("S", 1), X(1, k0, 0), D(k0)},
+				{T(k0, 0), A(ttl + 2*tick), N("F", 0), N("S", 0), c10Act{op: "B", k: k0}, X(0, k0, 0), D(k0)},
+			} {
+				did, o := c10RunCase(ttlSecs, tick, acts)
+				env.Count("split/directed")
+				env.Emit(c10CaseLine(ttlSecs, tick, did), o)
+			}
+		}
+	}
+	n := 400
+	if env.Thorough() {
+		n = 10000
+	}
+	for i := 0; i < n && c10Hangs < c10MaxHangs; i++ {
+		nkeys := 1 + env.Rng.Intn(2)
+		tick := []int64{0, 0, 1, 7}[env.Rng.Intn(4)]
+		c, o := c10Random(env, ttls[env.Rng.Intn(len(ttls))], tick, 10+env.Rng.Intn(40), nkeys, true)
+		env.Count("split/random")
+		env.Emit(c, o)
+	}
+}
+
 func runC10(env *Env) {
 	registry.LoadRegistry()
+	collector.VerifLockHook = c10LockHook
 	if len(env.Replay) > 0 {
 		for _, l := range env.Replay {
 			t := strings.Fields(l)
@@ -678,7 +855,8 @@ func runC10(env *Env) {
 				}
 			}
 			ttl, tick, acts := c10ParseCase(c)
-			env.Emit(c10CaseLine(ttl, tick, acts), c10RunCase(ttl, tick, acts))
+			did, o := c10RunCase(ttl, tick, acts)
+			env.Emit(c10CaseLine(ttl, tick, did), o)
 		}
 		return
 	}
@@ -714,11 +892,13 @@ func runC10(env *Env) {
 			nkeys = 1
 		}
 		tick := []int64{0, 0, 0, 1, 7}[env.Rng.Intn(5)]
-		c, o := c10Random(env, ttls[env.Rng.Intn(len(ttls))], tick, depth, nkeys)
+		c, o := c10Random(env, ttls[env.Rng.Intn(len(ttls))], tick, depth, nkeys, false)
 		env.Count(fmt.Sprintf("random/keys=%d", nkeys))
 		if tick != 0 {
 			env.Count("random/moving-clock")
 		}
 		env.Emit(c, o)
 	}
+	c10Split(env, ttls)
+	env.Count(fmt.Sprintf("callback/max-critical-sections-after-clock-read=%d", atomic.LoadInt64(&c10MaxSections)))
 }
